@@ -8,6 +8,7 @@ from gen import bytes_upto, segmentations
 from props.c03 import BOUNDS
 
 LEVEL = "proof"
+LYING = lambda a: "-M" in a        # which command lines of cases.rand_cli the lying-size stdin scenario keeps
 BIG_IO = lambda a: "-M" in a        # which command lines of cases.rand_cli the large-input stream keeps
 
 
